@@ -36,6 +36,11 @@ def run(ctx: Ctx) -> None:
             ctx.lean_check_olean(MODULES)
     S.configure()
     rng = ctx.rng
+    probe = S.probe_runtime(rng)
+    ctx.coverage["runtime_assumptions_probed"] = probe
+    if not (probe["order_ok"] == probe["context_ok"] == probe["gathers"]):
+        from ..common import ToolFailure
+        raise ToolFailure(f"this interpreter's asyncio does not behave as the model of C12 assumes: {probe}")
     orders_seen = set()
 
     # ---- gather_if_necessary itself ------------------------------------------------------------------------
